@@ -686,6 +686,24 @@ def paramObs (h : Heap) (sid : Oid) (name : String) (d : Int) : Option String :=
       | none => none
       | some l => pget l d
 
+/-- `base_tax_benefit_system`: the end of the `baseline` chain -/
+def rootOf : Nat → Heap → Oid → Oid
+  | 0, _, sid => sid
+  | fuel + 1, h, sid =>
+    match h.getSys sid with
+    | none => sid
+    | some s =>
+      match s.baseline with
+      | none => sid
+      | some b => rootOf fuel h b
+
+/-- `get_variables(entity=e)`: the names defined for the entity key -/
+def namesFor (h : Heap) (sid : Oid) (key : String) : List String :=
+  (varNames h sid).filter fun n =>
+    match resolve h sid n with
+    | none => false
+    | some vid => match h.getVar vid with | some v => v.entity == key | none => false
+
 /-- the dated history of a parameter of a system -/
 def paramHist (h : Heap) (sid : Oid) (name : String) : Option (List (Entry String)) :=
   match h.getSys sid with
